@@ -364,7 +364,7 @@ pub struct ToolOut {
 }
 
 fn cli_path() -> String {
-  std::env::var("VERIF_CLI").unwrap_or_else(|_| "/verif/target/repo/debug/cddl".to_string())
+  std::env::var("VERIF_CLI").unwrap_or_else(|_| crate::report::verif_dir().join("target/repo/debug/cddl").to_string_lossy().to_string())
 }
 
 static WORLD_SEQ: std::sync::atomic::AtomicU64 = std::sync::atomic::AtomicU64::new(0);
@@ -380,7 +380,7 @@ fn materialise(dir: &std::path::Path, name: &str, n: &Node) -> std::io::Result<(
 }
 
 pub fn run_tool(w: &World) -> ToolOut {
-  let base = std::path::PathBuf::from(std::env::var("VERIF_WORLDS").unwrap_or_else(|_| "/verif/target/worlds".to_string()));
+  let base = std::env::var("VERIF_WORLDS").map(std::path::PathBuf::from).unwrap_or_else(|_| crate::report::verif_dir().join("target/worlds"));
   let dir = base.join(format!("{}-{}", std::process::id(), WORLD_SEQ.fetch_add(1, std::sync::atomic::Ordering::SeqCst)));
   let _ = std::fs::remove_dir_all(&dir);
   let fail = |e: String| ToolOut { exit: None, text: String::new(), spawn_error: Some(e) };
